@@ -540,6 +540,7 @@ func runC03Clean(c *Ctx) {
 		MaxDepth:  12,
 	}
 	run := p.ghostVerdict(allocJob, spec)
+	runC03Retry(c, run, allocJob, stmtAlloc, stmtPipe, rollback)
 	key := funcKey(allocJob) + ": a failed gang placement leaves nothing placed in the statement"
 	switch {
 	case run.Undec != "":
@@ -584,4 +585,93 @@ func runC03Tree(c *Ctx) {
 	ok, desc := c.P.treeDescent(fn)
 	c.Check(ok, "O8", "WALK", funcKey(fn)+": collects the pod sets of every nested sub-group set", fn.Pos(), desc,
 		"GetAllPodSets does not descend through the child sub-group sets ("+desc+"): pod sets nested two or more levels below the root are unknown to the workload, their pods are dropped from it and the remaining members are scheduled as a complete gang")
+}
+
+// C03-O9 (MPT + GHOST summaries): nothing is built on top of an abandoned attempt. Where the placement tree tries
+// alternatives (node sets, topology domains) an attempt that FAILED WITH PLACEMENTS LEFT BEHIND — by the GHOST
+// summaries: a callee that, entered clean, can answer false with the statement dirty — must be rolled back before
+// anything else is placed in that activation and before success is reported. Otherwise the next alternative is
+// placed on top of the abandoned one: the same pod gets a second live allocate operation and Commit binds it twice.
+func runC03Retry(c *Ctx, run *ghostRun, root, stmtAlloc, stmtPipe, rollback *ssa.Function) {
+	p, fx := c.P, c.Fx
+	if run.Undec != "" {
+		return
+	}
+	placing := p.performs(isCallToFn(stmtAlloc, stmtPipe), 8)
+	isRb := func(in ssa.Instruction) bool {
+		cc, ok := in.(ssa.CallInstruction)
+		return ok && calleeOf(cc) != nil && sameFunc(calleeOf(cc), rollback)
+	}
+	seen := map[*ssa.Function]bool{}
+	var fns []*ssa.Function
+	var collect func(f *ssa.Function, d int)
+	collect = func(f *ssa.Function, d int) {
+		if f == nil || f.Blocks == nil || seen[f] || d > 8 || relPkg(funcPkgPath(f)) != pkgActCommon {
+			return
+		}
+		seen[f] = true
+		fns = append(fns, f)
+		for _, in := range instrsIn(f, func(ssa.Instruction) bool { return true }) {
+			if cc, ok := in.(ssa.CallInstruction); ok {
+				collect(calleeOf(cc), d+1)
+			}
+			if mc, ok := in.(*ssa.MakeClosure); ok {
+				collect(mc.Fn.(*ssa.Function), d+1)
+			}
+		}
+	}
+	collect(root, 0)
+	n := 0
+	for _, fn := range fns {
+		for _, in := range instrsIn(fn, func(x ssa.Instruction) bool { _, ok := x.(*ssa.Call); return ok }) {
+			call := in.(*ssa.Call)
+			if !isBool(call.Type()) {
+				continue
+			}
+			// the attempt: a static callee that places, or a function-typed parameter bound to closures by the callers
+			var attempts []*ssa.Function
+			if cal := calleeOf(call); cal != nil {
+				if placing(in) {
+					attempts = append(attempts, cal)
+				}
+			} else if prm, isPrm := call.Call.Value.(*ssa.Parameter); isPrm {
+				idx := paramIndexOf(prm)
+				for _, cs := range p.CallSites(fn) {
+					if args := cs.Common().Args; idx >= 0 && idx < len(args) {
+						if cf := closureFn(args[idx]); cf != nil {
+							attempts = append(attempts, cf)
+						}
+					}
+				}
+			}
+			failsDirty := false
+			for _, a := range attempts {
+				for _, o := range run.outcomesOf(a) {
+					if o.Ghost && o.Res != triT {
+						failsDirty = true
+					}
+				}
+			}
+			if !failsDirty {
+				continue
+			}
+			starts := falseEdgeStarts(fx, call)
+			if len(starts) == 0 {
+				continue // the verdict is handed on unexamined: the function that branches on it is responsible
+			}
+			n++
+			isTrueRet := func(x ssa.Instruction) bool {
+				r, ok := x.(*ssa.Return)
+				if !ok || len(r.Results) == 0 {
+					return false
+				}
+				k, isK := unspill(r, 0).(*ssa.Const)
+				return isK && k.Value != nil && k.Value.ExactString() == "true"
+			}
+			_, path, found := reachAvoiding(starts, func(x ssa.Instruction) bool { return placing(x) || x == in || isTrueRet(x) }, isRb, nil)
+			c.Check(!found, "O9", "MPT", funcKey(fn)+": an attempt that failed with placements left behind ("+calleeName(call)+") is rolled back before anything else is placed", instrPos(call), "Rollback between the failed attempt and the next placement / success",
+				"after "+calleeName(call)+" failed — it can fail with placements of its earlier members still in the statement — the next alternative is tried (or success is reported) without a rollback ("+pathStr(path)+"): the abandoned placements stay, a pod can carry two live allocate operations and be bound twice")
+		}
+	}
+	c.Floor("O9", "MPT attempts that can fail dirty", n, 2)
 }
